@@ -27,7 +27,7 @@ def mc(ctx, tier):
     # non-vacuity: the import-into-non-empty-destination situation the
     # invariants talk about must be reachable (TLC must violate the witness)
     w = vlib.tlc("PropYamlMC.tla", "PropYamlMC_witness.cfg", ctx.work, workers=4,
-                 timeout=600, heap="4g")
+                 timeout=600, heap="4g", extra=["-noGenerateSpecTE"])
     if "Invariant WitnessImportNonEmpty is violated" not in w["out"]:
         raise vlib.MachineryError("PropYamlMC: witness state not reachable "
                                   "(vacuous invariants):\n" + w["out"][-1500:])
